@@ -158,6 +158,9 @@ Init == /\ s = Down /\ st = InitStores /\ env = [finPending |-> NoFin] /\ pan = 
 Bounded == IF s = Down THEN TRUE ELSE (s.H <= MaxH /\ s.R <= MaxR)
 
 View == <<s, st, env, pan, stopped, signed, entered, finreqs>>
+\* edge cover: the last step is part of the view, so every (state, event) pair is a distinct state
+LastStep == IF hist = <<>> THEN NULL ELSE [op |-> hist[Len(hist)].op, args |-> hist[Len(hist)].args, resps |-> hist[Len(hist)].resps, crash |-> hist[Len(hist)].crash]
+EdgeView == <<s, st, env, pan, stopped, signed, entered, finreqs, LastStep>>
 
 -----------------------------------------------------------------------------
 (* ---- properties ---------------------------------------------------------- *)
@@ -202,4 +205,5 @@ EmitCex == (EmitAll /\ ~DesignOK) => PrintT("BEH " \o ToJson(hist))
 
 Terminal == Len(hist) = MaxSteps \/ pan # "" \/ stopped \/ ~DesignOK \/ ~Bounded
 Emit == (EmitAll /\ Terminal) => PrintT("BEH " \o ToJson(hist))
+EmitEvery == (EmitAll /\ hist # <<>>) => PrintT("BEH " \o ToJson(hist))
 =============================================================================
